@@ -134,6 +134,9 @@ def should_ignore_error(error: Error | str, settings: Settings) -> bool:
 
 
 def run_refurb(settings: Settings) -> Sequence[Error | str]:
+    # Files may have changed since a previous run in the same process
+    get_source_lines.cache_clear()
+
     stdout = StringIO()
     stderr = StringIO()
 
